@@ -525,51 +525,11 @@ Proof.
   unfold admission_ok. unfold struct_ok in H. exact H.
 Qed.
 
-(* the conversion response: the decoder reads ONE document; apart from the trigger's texts that is
-   the same as demanding exactly one *)
-Lemma first_single s d t : parse_first s = Some (d, t) -> all_ws t = true -> parse_single s = Some d.
+Lemma conversion_agree k b : v_conversion k = Some b -> conversion_parses k = b.
 Proof.
-  unfold parse_first, parse_single, parse_single_res.
-  destruct (parse_value (fuel_for s) s) as [[v t']| |]; try discriminate.
-  intros Q; inversion Q; subst. intros ->. reflexivity.
-Qed.
-Lemma single_first s d : parse_single s = Some d -> exists t, parse_first s = Some (d, t) /\ all_ws t = true.
-Proof.
-  unfold parse_first, parse_single, parse_single_res.
-  destruct (parse_value (fuel_for s) s) as [[v t']| |]; try discriminate.
-  destruct (all_ws t') eqn:W; [|discriminate]. intros Q; inversion Q; subst. eauto.
-Qed.
-
-Definition conv_trailing (s : bytes) : bool :=
-  match s with
-  | [] => false
-  | _ => match parse_first s with
-         | Some (d, t) => struct_ok conversion_schema d && negb (all_ws t)
-         | None => false
-         end
-  end.
-
-Lemma conversion_agree_text s b :
-  conv_trailing s = false -> single_verdict conversion_doc s = Some b -> conversion_ok s = b.
-Proof.
-  intros NT H.
-  apply (single_agree conversion_schema conversion_doc conversion_doc_is_schema conversion_distinct) in H.
-  unfold conversion_ok. unfold conv_trailing in NT. destruct s as [|c r]; [exact H|].
-  fold (struct_ok conversion_schema) in *.
-  destruct (parse_single (c :: r)) as [d|] eqn:PS.
-  - destruct (single_first _ _ PS) as (t & -> & W). exact H.
-  - subst b. destruct (parse_first (c :: r)) as [[d t]|] eqn:PF; [|reflexivity].
-    destruct (struct_ok conversion_schema d) eqn:SO; [|exact SO].
-    simpl in NT. apply negb_false_iff in NT. rewrite (first_single _ _ _ PF NT) in PS. discriminate.
-Qed.
-
-Lemma T_conv_trailing i : T_conv i = match i_conversion i with FText s => conv_trailing s | _ => false end.
-Proof. unfold T_conv, conv_trailing, struct_ok. destruct (i_conversion i); reflexivity. Qed.
-
-Lemma conversion_agree i b : T_conv i = false -> v_conversion (i_conversion i) = Some b -> conversion_parses (i_conversion i) = b.
-Proof.
-  rewrite T_conv_trailing. destruct (i_conversion i) as [| | | |s]; simpl; try (intros _ Q; inversion Q; reflexivity).
-  apply conversion_agree_text.
+  destruct k as [| | | |s]; simpl; try (intros Q; inversion Q; reflexivity).
+  intros H. apply (single_agree conversion_schema conversion_doc conversion_doc_is_schema conversion_distinct) in H.
+  unfold conversion_ok. unfold struct_ok in H. exact H.
 Qed.
 
 Lemma patch_agree k b : v_patch k = Some b -> patch_parses k = b.
@@ -825,35 +785,35 @@ Proof.
 Qed.
 
 (* text-side verdicts of the four files against the model's five tests *)
-Lemma all_wf_model i b : T_conv i = false -> all_wf i = Some b -> model_ok i = b.
+Lemma all_wf_model i b : all_wf i = Some b -> model_ok i = b.
 Proof.
-  intros NT. unfold all_wf, model_ok. cbn [vall fold_right]. destruct b.
+  unfold all_wf, model_ok. cbn [vall fold_right]. destruct b.
   - rewrite !vand_true. intros (Hm & Hp & Ha & Hc & _).
     pose proof (metrics_agree _ _ Hm) as Em. apply andb_true_iff in Em as [E1 E2].
-    now rewrite E1, E2, (admission_agree _ _ Ha), (conversion_agree i _ NT Hc), (patch_agree _ _ Hp).
+    now rewrite E1, E2, (admission_agree _ _ Ha), (conversion_agree _ _ Hc), (patch_agree _ _ Hp).
   - rewrite !vand_false. intros [Hm|[Hp|[Ha|[Hc|Q]]]]; [| | | |discriminate Q].
     + pose proof (metrics_agree _ _ Hm) as Em. apply andb_false_iff in Em as [E|E]; rewrite E; [reflexivity|].
       apply andb_false_r.
     + rewrite (patch_agree _ _ Hp). now rewrite andb_false_r.
     + rewrite (admission_agree _ _ Ha). now rewrite andb_false_r.
-    + rewrite (conversion_agree i _ NT Hc). now rewrite !andb_false_r.
+    + rewrite (conversion_agree _ _ Hc). now rewrite !andb_false_r.
 Qed.
 
 Lemma run_success_spec i b :
-  o_started (run i) = true -> T_conv i = false -> all_wf i = Some b ->
+  o_started (run i) = true -> all_wf i = Some b ->
   (o_success (run i) = true <-> (i_exit i = 0%Z /\ b = true)).
 Proof.
-  intros S NT W. rewrite (run_success_iff i S), (all_wf_model i b NT W). reflexivity.
+  intros S W. rewrite (run_success_iff i S), (all_wf_model i b W). reflexivity.
 Qed.
 
 Lemma run_started_success i : o_started (run i) = false -> o_success (run i) = false.
 Proof. run_cases i; cbn; try discriminate; reflexivity. Qed.
 
-(* the logic half of the property holds of the model for every input outside the trigger
+(* the logic half of the property holds of the model for every input
    (the OS half is taken over from the implementation's observation, see C12_Corr.model_obs) *)
-Theorem model_P_logic i o : T_conv i = false -> P_logic i (model_obs (i, o)) = true.
+Theorem model_P_logic i o : P_logic i (model_obs (i, o)) = true.
 Proof.
-  intros NT. unfold P_logic, model_obs.
+  unfold P_logic, model_obs.
   cbn [ob_bad ob_started ob_status ob_tmp_after ob_metric_applied ob_patch_applied].
   rewrite run_remaining. cbn [negb andb N.eqb]. rewrite andb_true_r.
   destruct (o_started (run i)) eqn:S.
@@ -863,7 +823,7 @@ Proof.
   - destruct (proj1 SI eq_refl) as [E MO]. rewrite E. cbn [Z.eqb negb N.eqb andb].
     destruct (A4 eq_refl) as (Pa & Ma & Mu).
     assert (W : match all_wf i with Some b => Bool.eqb true b | None => true end = true).
-    { destruct (all_wf i) as [b|] eqn:W; [|reflexivity]. rewrite <- (all_wf_model i b NT W), MO. reflexivity. }
+    { destruct (all_wf i) as [b|] eqn:W; [|reflexivity]. rewrite <- (all_wf_model i b W), MO. reflexivity. }
     rewrite W. cbn [andb].
     assert (MD : metrics_decodes (i_metrics i) = true).
     { unfold model_ok in MO. destruct (metrics_decodes (i_metrics i)); [reflexivity | discriminate MO]. }
@@ -876,7 +836,7 @@ Proof.
   - cbn [N.eqb]. destruct (Z.eqb (i_exit i) 0) eqn:E; cbn [negb andb].
     + destruct (all_wf i) as [b|] eqn:W; [|reflexivity].
       apply Z.eqb_eq in E. destruct b; [|reflexivity].
-      assert (false = true) by (apply SI; split; [exact E | apply (all_wf_model i true NT W)]). discriminate.
+      assert (false = true) by (apply SI; split; [exact E | apply (all_wf_model i true W)]). discriminate.
     + apply Z.eqb_neq in E. destruct (run_nonzero_exit i E) as (_ & M & U & Pp). rewrite M, U, Pp.
       destruct (all_wf i) as [b|]; reflexivity.
 Qed.
@@ -909,12 +869,12 @@ Proof.
   run_cases i; cbn; try discriminate AP0; auto.
 Qed.
 
-Lemma run_conversion_unreadable i s : i_conversion i = FText s -> s <> [] -> parse_first s = None ->
+Lemma run_conversion_unreadable i s : i_conversion i = FText s -> s <> [] -> parse_single s = None ->
   v_conversion (i_conversion i) = Some false /\ o_success (run i) = false /\ o_metric_applied (run i) = false
   /\ o_metric_unknown (run i) = false /\ o_patch_applied (run i) = false.
 Proof.
   intros E NN PF. rewrite E. simpl. unfold single_verdict. destruct s as [|c r]; [contradiction|].
-  rewrite (parse_first_none_single _ PF). split; [reflexivity|].
+  rewrite PF. split; [reflexivity|].
   assert (CP0 : conversion_parses (i_conversion i) = false).
   { rewrite E. unfold conversion_parses, conversion_ok. now rewrite PF. }
   run_cases i; cbn; try discriminate CP0; auto.
@@ -962,7 +922,17 @@ Theorem conversion_truncated_fails i j p q :
   v_conversion (i_conversion i) = Some false /\ o_success (run i) = false.
 Proof.
   intros E WF SC PR NP NQ.
-  destruct (run_conversion_unreadable i p E NP (truncation_first_rejected j p q WF SC PR NP NQ)) as (V & Su & _).
+  destruct (run_conversion_unreadable i p E NP (proj1 (truncation_rejected j p q WF SC PR NP NQ))) as (V & Su & _).
+  auto.
+Qed.
+
+(* a conversion response followed by optional whitespace and a stray } ] , or : (since fix 1bbc0df) *)
+Theorem conversion_stray_fails i a j w c rest :
+  i_conversion i = FText (a ++ w ++ c :: rest) -> parse_single a = Some j -> all_ws w = true -> stray c = true ->
+  v_conversion (i_conversion i) = Some false /\ o_success (run i) = false.
+Proof.
+  intros E PA W S.
+  destruct (run_conversion_unreadable i _ E (app_stray_nonnil a w c rest) (single_stray_rejected a j w c rest PA W S)) as (V & Su & _).
   auto.
 Qed.
 
@@ -973,7 +943,7 @@ Theorem conversion_leading_stray_fails i w c rest :
 Proof.
   intros E W S.
   assert (NN : w ++ c :: rest <> []) by (destruct w; discriminate).
-  destruct (run_conversion_unreadable i _ E NN (proj1 (leading_stray_rejected w c rest W S))) as (V & Su & _).
+  destruct (run_conversion_unreadable i _ E NN (proj1 (proj2 (leading_stray_rejected w c rest W S)))) as (V & Su & _).
   auto.
 Qed.
 
@@ -991,14 +961,3 @@ Proof.
     apply in_map_iff in Hx as (d & <- & Hd). now apply DV. }
   split; [exact V|]. pose proof (metrics_agree _ _ V) as A. now apply andb_true_iff in A.
 Qed.
-
-(* ------------------------------------------------------------------ the finding: data after a conversion response *)
-Definition conv_witness : input :=
-  mkIn 0 FEmpty FEmpty FEmpty
-       (FText [123; 34; 99; 111; 110; 118; 101; 114; 116; 101; 100; 79; 98; 106; 101; 99; 116; 115; 34; 58; 91; 93; 125; 32; 120])
-       false 0.                       (* {"convertedObjects":[]} x *)
-Definition any_obs : observation := mkOb true true true true true true 5 0 0 false false false.
-
-Lemma conv_refuted : T_conv conv_witness = true /\ P_logic conv_witness (model_obs (conv_witness, any_obs)) = false
-                     /\ v_conversion (i_conversion conv_witness) = Some false /\ o_success (run conv_witness) = true.
-Proof. vm_compute. auto. Qed.
